@@ -19,6 +19,7 @@ type X struct {
 	qn       int
 	revealed map[string]bool // opaque spec functions expanded in this function
 	argStatic []types.Type  // static types of the current call's argument expressions
+	implCache map[string][]types.Type // interface type -> named types implementing it
 }
 
 type Target struct {
